@@ -1662,6 +1662,10 @@ def c17_corr(res, exe, driver, tier, seed, tmp):
         elif "S done" not in raw["obs"] or len(rl) != c.reads:
             res.oracle_failures.append({"stream": "junk", "case": line, "keys": c.keys, "events": c.meta.get("events"),
                                         "why": "no result: %d results for %d reads" % (len(rl), c.reads)})
+        elif c.meta.get("expect_first") and rl and rl[0] != c.meta["expect_first"]:
+            # every key that arrived before the accepting Enter has taken effect: the first read returns exactly this
+            res.oracle_failures.append({"stream": "junk", "case": line, "keys": c.keys, "events": c.meta.get("events"),
+                                        "why": "keys lost or mangled: the first read answered %s, expected %s" % (rl[0], c.meta["expect_first"])})
         res.nontrivial.add(line)
     for (c, impl, model, raw) in out2:
         rl = [l for l in raw["obs"] if l.startswith("R ")]
@@ -1939,7 +1943,7 @@ def c02_cases(tier, seed):
     for _ in range(n):
         mode = rng.choice(["emacs", "emacs", "vi"])
         cols = rng.choice([4, 5, 8, 10, 12, 20, 20, 40, 80])
-        prompt = rng.choice(["", "> ", "日> ", ">> ", "\x1b[1;32m>>\x1b[0m ", "\x1b[91m>>\x1b[39m ", "\x1b[38;5;196m>\x1b[0m ",
+        prompt = rng.choice(["", "> ", "日> ", ">> ", "st: ok\n> ", "\x1b[1;32m>>\x1b[0m ", "\x1b[91m>>\x1b[39m ", "\x1b[38;5;196m>\x1b[0m ",
                              "\x1b[4;7;45m$\x1b[m \x1b[38;2;10;60;89mx\x1b[0m "])
         hist = [rng.choice(["one", "two words", "é日本", "l1\nl2\nl3", "x" * 25, "日" * 9]) for _ in range(rng.choice([0, 1, 2]))]
         hints = ["abc def", "日本語", "x" * 30, "a b c d e f g h i j k"] if rng.random() < 0.3 else None
@@ -1993,6 +1997,30 @@ def c02_cases(tier, seed):
         chunks = [b"".join(p_tty.key_bytes(k) for k in cmd.keys) for cmd in cmds]
         cases.append(script_case(cmds, mode=mode, cols=cols, prompt=prompt, hints=hints, chunks=chunks,
                                  timeout=0 if mode == "vi" else rng.choice(["none", 0])))
+    # the window resized (narrower than the prompt, wider, to where the line wraps) during a read, then C-l and more keys: from the
+    # cleared screen on everything is laid out for the NEW width (prompt size, cursor, end)
+    for i in range(max(6, n // 30)):
+        prompt = ["a prompt of 19 col> ", "> ", "日本> ", "st: ok\n> "][i % 4]
+        cols0 = rng.choice([30, 40])
+        body = p_tty.rand_text(rng, 2, 12, ["a", "b", " ", "日", "x"])
+        cmds = [Cmd([ch], "ins", c=ord(ch), n=1) for ch in body]
+        at = len(cmds) - 1
+        newc = [12, 8, 60, 20, 10][i % 5]
+        cmds += [Cmd(["C-l"], "motion")]
+        for _ in range(rng.randint(2, 5)):
+            r = rng.random()
+            if r < 0.4:
+                cmds.append(Cmd([rng.choice(["Left", "Right", "C-a", "C-e"])], "motion"))
+            elif r < 0.8:
+                ch = rng.choice(["a", "y", "日"])
+                cmds.append(Cmd([ch], "ins", c=ord(ch), n=1))
+            else:
+                cmds.append(Cmd([rng.choice(["Backspace", "C-k"])], "edit"))
+        cmds += [Cmd(["F12"], "noop"), Cmd(["Enter"], "enter")]
+        chunks = [b"".join(p_tty.key_bytes(k) for k in cmd.keys) for cmd in cmds]
+        c = script_case(cmds, mode=["emacs", "vi"][i % 2], cols=cols0, prompt=prompt, chunks=chunks, timeout=0 if i % 2 else "none")
+        c.meta.update({"events": {at: [("winch", newc)]}, "resize_at": {at: newc}})
+        cases.append(c)
     # a validator message shown while the cursor is INSIDE the line (Enter there), text + message wrapping around a narrow
     # window, then repaints in that state: motions, insertions, deletions, another Enter
     for i in range(max(8, n // 12)):
@@ -2055,6 +2083,8 @@ def eval_c02(res, cases_out, stream, width):
         scr = vt.Screen(c.cols, width, int(c.meta.get("tab_stop", 8)))
         fed = base
         msg_state = None
+        cols_now, unknown = c.cols, False
+        resize_at = c.meta.get("resize_at") or {}
         nobs_before = [sum(1 for l in raw["obs"][:m] if l.startswith("K ")) for m in omarks]
         # marks[k] / omarks[k]: output length and observation count once chunk k-1 has been consumed (k=0: start-up)
         for k in range(len(marks)):
@@ -2068,6 +2098,21 @@ def eval_c02(res, cases_out, stream, width):
             # stop before the end-of-read sequence
             scr.feed(piece)
             fed = end
+            if (k - 1) in resize_at:
+                # the window was resized after chunk k-1: what a terminal shows of the OLD picture is its own business; judged again
+                # once the screen has been cleared (C-l) and drawn afresh
+                cols_now = resize_at[k - 1]
+                scr.W = cols_now
+                for rr in list(scr.rows):
+                    scr.rows[rr] = (scr.rows[rr] + [None] * cols_now)[:cols_now]
+                scr.c = min(scr.c, cols_now - 1)
+                unknown = True
+            if unknown:
+                if any(piece[q:q + 3] == [0x1b, 0x5b, 0x48] for q in range(len(piece) - 2)):
+                    unknown = False
+                    scr.flags = []
+                else:
+                    continue
             j = nobs_before[k]                 # the next observation tells the state the screen must show now
             if j >= len(t.steps):
                 continue
@@ -2097,9 +2142,9 @@ def eval_c02(res, cases_out, stream, width):
                 else:
                     msg_state = None
             pre, suf = split_at(text, pos)
-            rows, cur, cur_next, exp = vt.layout(c.cols, width, prompt + pre, suf, hint, tab=int(c.meta.get("tab_stop", 8)))
+            rows, cur, cur_next, exp = vt.layout(cols_now, width, prompt + pre, suf, hint, tab=int(c.meta.get("tab_stop", 8)))
             if alt is not None and scr.text_rows() != rows:
-                rows, cur, cur_next, exp = vt.layout(c.cols, width, prompt + pre, suf, alt, tab=int(c.meta.get("tab_stop", 8)))
+                rows, cur, cur_next, exp = vt.layout(cols_now, width, prompt + pre, suf, alt, tab=int(c.meta.get("tab_stop", 8)))
             if exp.known_class:
                 # recorded findings: rustyline's row arithmetic and the terminal disagree on these texts, and what is
                 # drawn afterwards is affected too: the rest of this script is not judged
@@ -2108,7 +2153,7 @@ def eval_c02(res, cases_out, stream, width):
             stats["points"] += 1
             if len(rows) > 1:
                 stats["screens_with_wrap"] += 1
-            res.nontrivial.add((c.cols, enc(text), pos))
+            res.nontrivial.add((cols_now, enc(text), pos))
             got = scr.text_rows()
             why = None
             if scr.flags:
@@ -2124,7 +2169,7 @@ def eval_c02(res, cases_out, stream, width):
             if why is None and cur_next != cur:
                 stats["wide_at_margin"] += 1
             if why:
-                fail_case(res, stream, t, why + "  [cols=%d prompt=%r text=%s pos=%d]" % (c.cols, c.prompt, enc(text), pos))
+                fail_case(res, stream, t, why + "  [cols=%d prompt=%r text=%s pos=%d]" % (cols_now, c.prompt, enc(text), pos))
                 break
         else:
             # the read returned: the cursor is after the last character so that what the application prints starts on a fresh row
@@ -2141,7 +2186,7 @@ def eval_c02(res, cases_out, stream, width):
                     # Ctrl-C: the text (and the hint shown with it) stay as they are; what the application prints next starts below
                     line = t.steps[-1][1][0] + (t.steps[-1][3][5] or [])
                     stats["final_interrupted"] = stats.get("final_interrupted", 0) + 1
-                rows, cur, _, exp = vt.layout(c.cols, width, prompt + line, [], [], tab=int(c.meta.get("tab_stop", 8)))
+                rows, cur, _, exp = vt.layout(cols_now, width, prompt + line, [], [], tab=int(c.meta.get("tab_stop", 8)))
                 if exp.known_class:
                     continue
                 stats["final"] += 1
@@ -2281,7 +2326,8 @@ def c19_cases(tier, seed):
                     serial += 1
                     lst.append((t, text))
                 prints[k] = lst
-        c = script_case(cmds, mode=mode, chunks=chunks, cols=rng.choice([80, 40, 20]), prompt=rng.choice(["> ", "日> "]),
+        # (prompts of one row, and of two: a status line above the prompt proper)
+        c = script_case(cmds, mode=mode, chunks=chunks, cols=rng.choice([80, 40, 20]), prompt=rng.choice(["> ", "日> ", "> ", "st: ok\n> "]),
                         timeout=0 if mode == "vi" else rng.choice(["none", 0]), reads=2,
                         initial=p_tty.mk_initial(rng, 0.2, ["a", "b", " ", "é"]))
         c.meta["printers"] = nthreads
